@@ -82,6 +82,8 @@ pub enum FaultErr {
     Term(u64),
     /// `StreamErrorIncoming::Unknown`; sticky on that side of the stream; at an open site: that one call fails
     Unknown,
+    /// not an error: `poll_finish` answers `Pending` once (`P`, site `pf` only; nobody wakes the task)
+    Pend,
 }
 
 #[derive(Clone, Debug)]
@@ -132,6 +134,7 @@ pub fn parse_fault(s: &str) -> Option<Fault> {
         }
         b'X' if !accept => FaultErr::Term(err[1..].parse().ok()?),
         b'K' if err == "K" && !accept => FaultErr::Unknown,
+        b'P' if err == "P" && site == Site::PollFinish => FaultErr::Pend,
         _ => return None,
     };
     Some(Fault { site, target, skip, err, label: s.to_string() })
@@ -147,7 +150,10 @@ fn fault(net: &NetRef, site: Site, target: u64) -> Option<FaultErr> {
     if n.faults.is_empty() {
         return None;
     }
-    let i = n.faults.iter().position(|f| f.site == site && f.target.map(|t| t == target).unwrap_or(true))?;
+    let i = n
+        .faults
+        .iter()
+        .position(|f| f.site == site && f.target.map(|t| t == target).unwrap_or(true) && !matches!(f.err, FaultErr::Pend))?;
     if n.faults[i].skip > 0 {
         n.faults[i].skip -= 1;
         return None;
@@ -161,11 +167,31 @@ fn fault(net: &NetRef, site: Site, target: u64) -> Option<FaultErr> {
     Some(f.err)
 }
 
+/// is a `P` fault due at this `poll_finish`?
+fn pend_fault(net: &NetRef, id: u64) -> bool {
+    let mut n = net.borrow_mut();
+    let Some(i) = n
+        .faults
+        .iter()
+        .position(|f| f.site == Site::PollFinish && f.target == Some(id) && matches!(f.err, FaultErr::Pend))
+    else {
+        return false;
+    };
+    if n.faults[i].skip > 0 {
+        n.faults[i].skip -= 1;
+        return false;
+    }
+    let f = n.faults.remove(i);
+    n.fired.push(f.label.clone());
+    n.event(format!("!{}", f.label));
+    true
+}
+
 fn stream_err(e: FaultErr) -> StreamErrorIncoming {
     match e {
         FaultErr::Conn(c) => StreamErrorIncoming::ConnectionErrorIncoming { connection_error: c },
         FaultErr::Term(c) => StreamErrorIncoming::StreamTerminated { error_code: c },
-        FaultErr::Unknown => unknown_err(),
+        FaultErr::Unknown | FaultErr::Pend => unknown_err(),
     }
 }
 
@@ -186,7 +212,7 @@ fn send_fault(net: &NetRef, site: Site, id: u64) -> Option<StreamErrorIncoming> 
                 s.tx_broken = true;
                 s.writing = None;
             }
-            FaultErr::Conn(_) => {}
+            FaultErr::Conn(_) | FaultErr::Pend => {}
         }
     }
     Some(stream_err(e))
@@ -502,7 +528,7 @@ impl quic::RecvStream for SimStream {
                     s.rx.clear();
                 }
             }
-            None => {}
+            Some(FaultErr::Pend) | None => {}
         }
         let mut n = self.net.borrow_mut();
         let s = n.streams.get_mut(&self.id).expect("stream");
@@ -596,9 +622,15 @@ impl quic::SendStream<Bytes> for SimStream {
         s.writing = Some(data.into());
         Ok(())
     }
-    fn poll_finish(&mut self, _: &mut Context<'_>) -> Poll<Result<(), StreamErrorIncoming>> {
+    fn poll_finish(&mut self, cx: &mut Context<'_>) -> Poll<Result<(), StreamErrorIncoming>> {
         if let Some(e) = conn_err(&self.net) {
             return Poll::Ready(Err(StreamErrorIncoming::ConnectionErrorIncoming { connection_error: e }));
+        }
+        if pend_fault(&self.net, self.id) {
+            if let Some(s) = self.net.borrow_mut().streams.get_mut(&self.id) {
+                s.tx_waker = Some(cx.waker().clone());
+            }
+            return Poll::Pending;
         }
         if let Some(e) = send_fault(&self.net, Site::PollFinish, self.id) {
             return Poll::Ready(Err(e));
